@@ -115,3 +115,14 @@ CHECKS['C06'] = dict(level='other',
         'them, monotonicity, and packF3x9_E1x5 / RGBM numerics are not decided. Level "other": structural rule set, not a proof of the numeric clauses.',
    technique='bit-dependence and term-shape analysis of instantiated LLVM IR; ordering-domain comparison of clamps; partial evaluation at constant codes')
 NOT_APPLICABLE.pop('C06', None)
+
+CHECKS['C14'] = dict(level='other',
+   text='nextFloat/prevFloat (ext and gtc copies, float/double, scalar/vector, 1- and n-step) under the default, GLM_FORCE_CXX98 and GLM_FORCE_CXX03 configurations are chains of the next-after '
+        'primitive whose direction constant dominates every finite value; equal/notEqual/epsilonEqual/epsilonNotEqual with an epsilon are compared with |x-y| <= eps / > eps under every order '
+        'relation of the compared quantities (scalar, vector, matrix per column, quaternion); equal/notEqual with maxULPs are compared, as boolean functions of the operand bit patterns, with '
+        '"signs equal ? |a.i-b.i| <= n : both zero", identically for scalar, vector and matrix overloads, with witnesses assembled from independent bit fields.',
+   note='Decided: step direction and count, predicate kind and lane discipline of the epsilon comparisons, the sign/zero structure of the ULP comparison. Not decided: correctness of the '
+        'next-after primitive itself, floatDistance arithmetic, exact ULP counts across zero. Three known findings (scalar ULP equal on +0/-0 asserted by the repo tests; strict epsilonEqual and '
+        'quaternion equal documented as such) are listed.',
+   technique='term-shape analysis (call chains and direction constants), decision tables over order relations, bit-level boolean equivalence with an equality-logic feasibility oracle')
+NOT_APPLICABLE.pop('C14', None)
